@@ -129,4 +129,22 @@ T5_Index ==
         x == StrictShx(Shx, Shp)
     IN  x.ok /\ x.entries = r.recs
 
+\* C13 on the specification: every truncation of a valid file reads as the records
+\* wholly contained, then an I/O error (checked on the files of at most 2 shapes)
+RECURSIVE ContainedIn(_, _, _)
+ContainedIn(recs, i, n) ==
+    IF i > Len(recs) THEN 0
+    ELSE IF 2 * recs[i][1] + 8 + 2 * recs[i][2] <= n THEN 1 + ContainedIn(recs, i + 1, n) ELSE 0
+T6_Truncation ==
+    Len(file.shapes) \in 1..2 =>
+      LET recs == StrictShp(Shp).recs
+      IN  \A n \in 0..Len(Shp) :
+            LET r0 == ReadFile(SubSeq(Shp, 1, n), FALSE, << >>)
+                r1 == ReadFile(SubSeq(Shp, 1, n), TRUE, Shx)
+            IN  IF n < 100 THEN r0.openErr = "io" /\ r1.openErr = "io"
+                ELSE /\ r0.openErr = "" /\ Len(r0.items) = ContainedIn(recs, 1, n)
+                     /\ r0.err = (IF n < Len(Shp) THEN "io" ELSE "")
+                     /\ Len(r1.items) = Len(r0.items) /\ r1.err = r0.err
+                     /\ \A i \in 1..Len(r0.items) : ReadBackRel(file.shapes[i], r0.items[i].shape, FALSE)
+
 =============================================================================
